@@ -168,7 +168,7 @@ func (g *tsGen) batch(rng *vh.Rng, part, n int) write {
 		}
 		for i := 0; i < n; i++ {
 			cur += int64(rng.PickI([]int{0, 1, 1, 2, 3, 7}))
-			w.Evs = append(w.Evs, rdh.Ev{Lbl: part*100000 + g.seq[part], Ts: cur, Keep: rng.Chance(3, 5)})
+			w.Evs = append(w.Evs, rdh.Ev{Lbl: part*100000 + g.seq[part], Ts: cur, Keep: rng.Chance(3, 5), Fld: rng.Intn(4)})
 			g.seq[part]++
 		}
 		g.pts[part] = cur
@@ -183,7 +183,7 @@ func (g *tsGen) batch(rng *vh.Rng, part, n int) write {
 			step = 1
 		}
 		g.ts += step
-		w.Evs = append(w.Evs, rdh.Ev{Lbl: part*100000 + g.seq[part], Ts: g.ts, Keep: rng.Chance(3, 5)})
+		w.Evs = append(w.Evs, rdh.Ev{Lbl: part*100000 + g.seq[part], Ts: g.ts, Keep: rng.Chance(3, 5), Fld: rng.Intn(4)})
 		g.seq[part]++
 	}
 	return w
@@ -897,6 +897,7 @@ func runPHist(srv *lrsrv.Srv, drv *vh.Driver, h phist, sec *vh.Section, verbose 
 		}
 	}
 	modelOK := true
+	contentBad := false
 	emptyPages := 0
 	for page := 0; page < 400; page++ {
 		// a held cursor needs WaitTimeout > 0 at creation; never wait when nothing matches (finding 11) or at the expected end
@@ -917,6 +918,11 @@ func runPHist(srv *lrsrv.Srv, drv *vh.Driver, h phist, sec *vh.Section, verbose 
 			return
 		}
 		lbls := labelsOf(r.Events)
+		// every delivered event is, field by field, what was written under its label (timestamp, message, tags, fields)
+		if d := w.VerifyAll(r.Events); d != "" && !contentBad {
+			contentBad = true
+			fail("event-content", "a delivered event differs from the stored one (its content depends on where the page boundaries fall)", fmt.Sprintf("page %d (limit %d): %s", page, req.Limit, d), "every event as written: timestamp, message, tags, fields", "", false, "")
+		}
 		perPage = append(perPage, lbls)
 		got = append(got, lbls...)
 		lim := req.Limit
@@ -1147,7 +1153,7 @@ func sectionPaging(rng *vh.Rng) {
 	{
 		var evs []rdh.Ev
 		for k := 0; k < 10050; k++ {
-			evs = append(evs, rdh.Ev{Lbl: k, Ts: int64(k / 3), Keep: true})
+			evs = append(evs, rdh.Ev{Lbl: k, Ts: int64(10 + k/3), Keep: true, Fld: 1 + k%3})
 		}
 		big.Init = []write{{Part: 0, Evs: evs}}
 	}
@@ -1475,6 +1481,7 @@ func runSelect(srv *lrsrv.Srv, w *rdh.World, c selCase, sec *vh.Section, verbose
 	}
 	var got []int
 	pages := 0
+	content := ""
 	var err error
 	var q api.Querier = backendQuerier{srv}
 	if c.Rpc {
@@ -1485,6 +1492,9 @@ func runSelect(srv *lrsrv.Srv, w *rdh.World, c selCase, sec *vh.Section, verbose
 		defer cancel()
 		err = api.Select(ctx, q, &api.QueryRequest{Query: w.Query(c.Where, nil), Limit: c.Limit}, false, func(r *api.QueryResult) {
 			pages++
+			if d := w.VerifyAll(r.Events); d != "" && content == "" {
+				content = d
+			}
 			for _, e := range r.Events {
 				got = append(got, rdh.ParseMsg(e.Message))
 			}
@@ -1502,6 +1512,10 @@ func runSelect(srv *lrsrv.Srv, w *rdh.World, c selCase, sec *vh.Section, verbose
 	if !ok {
 		res.SpecFail(vh.SpecFailure{Section: "select", Kind: "hang", Input: c, Impl: "no answer in 60 s", Spec: "returns", What: "api.Select did not return"})
 		return
+	}
+	if content != "" {
+		res.SpecFail(vh.SpecFailure{Section: "select", Kind: "event-content", Input: c, Impl: content, Spec: "every event as written: timestamp, message, tags, fields",
+			What: "a delivered event differs from the stored one"})
 	}
 	same := err == nil && len(got) == len(want)
 	for i := 0; same && i < len(got); i++ {
@@ -1536,7 +1550,7 @@ func sectionSelect(rng *vh.Rng) {
 	w := rdh.NewWorld(srv, newGrp())
 	var evs []rdh.Ev
 	for k := 0; k < 10050; k++ {
-		evs = append(evs, rdh.Ev{Lbl: k, Ts: int64(10 + k/3), Keep: k%3 != 2})
+		evs = append(evs, rdh.Ev{Lbl: k, Ts: int64(10 + k/3), Keep: k%3 != 2, Fld: 1 + (k*7/5)%3})
 	}
 	if err := w.Write(0, evs); err != nil {
 		res.Fatal(args.Out, "select: %v", err)
@@ -1597,7 +1611,7 @@ func replay(path string) {
 		w := rdh.NewWorld(srv, newGrp())
 		var evs []rdh.Ev
 		for k := 0; k < c.Events; k++ {
-			evs = append(evs, rdh.Ev{Lbl: k, Ts: int64(10 + k/3), Keep: k%3 != 2})
+			evs = append(evs, rdh.Ev{Lbl: k, Ts: int64(10 + k/3), Keep: k%3 != 2, Fld: 1 + (k*7/5)%3})
 		}
 		w.Write(0, evs)
 		srv.FlushWait()
